@@ -1,5 +1,6 @@
 import GoHeader.Oracle.Common
 import GoHeader.P2P.Session
+import GoHeader.P2P.Score
 namespace GoHeader.Oracle
 open GoHeader GoHeader.Sess
 
@@ -45,7 +46,25 @@ def evalTwoCalls (ins outs : List String) : Verdict :=
     if natList? res == some expected then .ok "twocalls" else .prop "c05_exact_heights" s!"res={res}"
   | _, _, _, _ => .bad "twocalls fields"
 
+def scoreEv? : String → Option Score.Ev
+  | "fail" => some .fail
+  | s => if s.startsWith "ok" then (s.drop 2).toString.toNat?.map .ok else none
+
+def clsTag : Score.Cls → String
+  | .fin => "fin" | .inf => "inf" | .nan => "nan"
+
+/-- `kind=scoreclass`: a sequence of outcomes booked on one tracked peer by the real `updateStats` / `decreaseScore`;
+    the class of the resulting float32 score against `P2P.Score.run` (theorem c18_score_stays_finite) -/
+def evalScoreClass (ins outs : List String) : Verdict :=
+  match (kv? ins "seq").bind (fun s => (s.splitOn ",").mapM scoreEv?), kv? outs "class" with
+  | some evs, some c =>
+    if c != "fin" then .prop "c18_complete" s!"a peer's score became {c}: it cannot be ordered in the peer queue any more" else
+    let m := clsTag (Score.run true .fin evs)
+    if m == c then .ok "scoreclass" else .corr "score class" m c
+  | _, _ => .bad "scoreclass fields"
+
 def evalSession (prop : String) (ins outs : List String) : Verdict :=
+  if kv? ins "kind" == some "scoreclass" then evalScoreClass ins outs else
   if kv? ins "kind" == some "twocalls" then evalTwoCalls ins outs else
   match kvNat? ins "from", kvNat? ins "to", kvNat? ins "chunk", kv? ins "peers", kv? outs "res", kv? outs "err", kv? outs "trace" with
   | some fromH, some to, some chunk, some peersS, some res, some err, some traceS =>
